@@ -10,7 +10,8 @@ from vlib import NoVerdict, log
 
 CFG = {
     "C05": dict(quick="MCKeyID_q05", thorough="MCKeyID_t05",
-                random=dict(quick={"enc": 5000, "dec": 20000}, thorough={"enc": 80000, "dec": 300000}),
+                random=dict(quick={"enc": 4000, "dec": 12000, "mseq": 500, "conc": 500},
+                            thorough={"enc": 60000, "dec": 150000, "mseq": 5000, "conc": 5000}),
                 ops=("enc", "dec"), kinds=["dec", "enc", "junk", "mut"], actions=("EncCase", "DecCase", "MutCase", "JunkCase")),
     "C19": dict(quick="MCKeyID_q19", thorough="MCKeyID_t19",
                 random=dict(quick={"cert": 15000, "prins": 1000, "shim": 1440}, thorough={"cert": 200000, "prins": 5000, "shim": 14400}),
@@ -24,7 +25,7 @@ OVERLAY = {"agent/shimagent/zz_verif_keyid_test.go": os.path.join(vlib.HARNESS, 
 
 
 def build(prop):
-    return vlib.build_harness("keyid", "agent/shimagent", OVERLAY, outdir=os.path.join(vlib.OUT, prop, "bin"))
+    return vlib.build_harness("keyid", "agent/shimagent", OVERLAY, outdir=os.path.join(vlib.run_root(prop), "bin"))
 
 
 def vkey(rec):
@@ -49,10 +50,10 @@ def describe(rec):
             txt = bytes.fromhex(info["text"]).decode("utf-8", "backslashreplace")
         except ValueError:
             txt = info["text"]
-    fields = {"enc": ("k", "ok", "dok", "dk", "present", "sin", "sout", "pan"),
-              "dec": ("ok", "dk", "present", "pan"),
-              "cert": ("nil", "ok", "dk", "opt", "ty", "lok", "label", "tid", "pin", "pout", "pan"),
-              "prins": ("tyin", "pin", "pout", "pan"),
+    fields = {"enc": ("k", "ok", "rep", "dok", "dk", "present", "sin", "sout", "pan"),
+              "dec": ("ok", "dk", "present", "pan", "rep", "ok1", "dk1", "sout", "s1"),
+              "cert": ("nil", "ok", "dk", "opt", "ty", "lok", "label", "tid", "pin", "pout", "pafter", "pan"),
+              "prins": ("tyin", "pin", "pout", "pafter", "rep", "pfirst", "pfirst2", "pan"),
               "shim": ("ok", "dk", "opt", "tid", "ocmt", "found", "cmt", "pan")}.get(e["op"], tuple(e))
     short = {k: e[k] for k in fields}
     case = {k: v for k, v in e["cs"].items() if v not in ("", 0) and not (k == "k" and e["cs"]["kind"] in ("free", "junk", "certjunk", "nil", "prins"))}
@@ -77,7 +78,7 @@ def judge(prop, verdict, recs, label, drift):
     for (ti, li) in rejected["T" + prop]:
         rec = trace[li]
         bad[li] = rec["tid"]
-        rp = vlib.save_replay(prop, "%s.ndjson" % rec["tid"], [dict(rec, prop=prop)]) if len(verdict.violations) < 25 else "(not saved)"
+        rp = vlib.save_replay(prop, "%s_%s.ndjson" % (vlib.RUN_ID, rec["tid"]), [dict(rec, prop=prop)]) if len(verdict.violations) < 25 else "(not saved)"
         verdict.violation(vkey(rec), "event %s is rejected by %s_Step: %s" % (rec["tid"], prop, describe(rec)), rp)
     for (ti, li) in rejected["Strict"]:
         if li not in bad and len(drift) < 1000:
@@ -139,7 +140,6 @@ def run(prop, tier):
     t0 = time.time()
     conf = CFG[prop]
     verdict, drift = vlib.Verdict(prop), []
-    shutil.rmtree(os.path.join(vlib.OUT, prop, "replay"), ignore_errors=True)
     binp = build(prop)
 
     # 1. the property on the bounded model, the sanity theorems, and the export of the case space
@@ -169,13 +169,15 @@ def run(prop, tier):
     plan = {"cases": [c["c"] for c in cases], "random": conf["random"][tier], "replays": []}
     outp, summ = run_harness(prop, binp, wd, plan, 3000)
     want_b = sum(conf["random"][tier].values())
-    n_case = n_rand = ok_case = ok_rand = judged = n_a = n_b = 0
+    n_case = n_rep = n_rand = ok_case = ok_rand = judged = n_a = n_b = 0
     keep_a, keep_b = [], []
     for i, recs in enumerate(chunks(outp)):
         if any(x["e"]["op"] not in conf["ops"] for x in recs):
             raise NoVerdict("the harness recorded events outside %s" % (conf["ops"],))
         for x in recs:
-            if x["tid"].startswith("a"):
+            if x["tid"].startswith("a") and "." in x["tid"]:
+                n_rep += 1       # a further call with the same input as a replayed case
+            elif x["tid"].startswith("a"):
                 n_case += 1
                 ok_case += x["e"]["ok"]
                 if n_case % max(1, len(cases) // 4) == 1 and len(keep_a) < 4:
@@ -217,17 +219,19 @@ def run(prop, tier):
         return s
     samples = [sample(x) for x in keep_a + keep_b]
     cov = {"states": states, "transitions": transitions, "traces_validated_against_impl": judged, "samples": samples,
-           "exhaustive": True, "evaluations": n_case + n_rand, "distinct_nontrivial": summ.get("distinct", 0),
+           "exhaustive": True, "evaluations": n_case + n_rep + n_rand, "distinct_nontrivial": summ.get("distinct", 0),
            "rule": "every case of the bounded KeyID model (kinds %s; %d KeyID values, %d encodable) is replayed on the real code with concrete strings, "
                    "plus seeded random inputs; distinct_nontrivial = distinct (operation, verdict, decoded value, fields present, type, option, mutation) "
                    "combinations observed on the real code; every event is judged by TLC with %s_Step" % (kinds, un["keyids"], un["encodable"], prop),
-           "cases_exported": len(cases), "case_kinds": kinds, "case_events": n_case, "random_events": n_rand,
+           "cases_exported": len(cases), "case_kinds": kinds, "case_events": n_case, "repeated_call_events_of_cases": n_rep, "random_events": n_rand,
            "events_by_op": summ.get("by_op"), "successful_calls": summ.get("ok_events"), "spec_drift": len(drift), "rejected_case_events": n_a, "rejected_random_events": n_b,
            "keyid_values": un["keyids"], "encodable_values": un["encodable"], "model_cfg": cfg, "zero_coverage_actions": zero}
     rc = verdict.finish()
     vlib.write_evidence(prop, tier, "model_checking", cov,
                         ["strings in KeyIDs and comments are valid UTF-8 (the property quantifies over UTF-8 strings)",
-                         "which fields a text contains is computed by the harness with its own scan of the top-level object (exact member names)"]
+                         "which fields a text contains is computed by the harness with its own scan of the top-level object (exact member names)",
+                         "history independence is exercised within one process: repeated calls with the same input, every returned value overwritten "
+                         "by the caller in between, a share of them from 4 goroutines at once"]
                         + ([] if prop == "C05" else
                            ["whether a certificate's KeyID decodes, and to what, is observed with keyid.Unmarshal itself (C05 governs that function)",
                             "the shim listing is observed in upstream mode over an x/crypto keyring with currently valid certificates"]),
